@@ -140,17 +140,24 @@ macro_rules! impl_numeric_cast {
 
         #[cfg(feature="time")]
         impl<U: TimeUnitTrait> Cast<DateTime<U>> for $T {
-            #[inline] fn cast(self) -> DateTime<U> { Cast::<i64>::cast(self).into() }
+            #[inline] fn cast(self) -> DateTime<U> {
+                // a null (NaN) stays a null
+                if self.is_none() { DateTime::nat() } else { Cast::<i64>::cast(self).into() }
+            }
         }
 
         #[cfg(feature="time")]
         impl Cast<TimeDelta> for $T {
-            #[inline] fn cast(self) -> TimeDelta { Cast::<i64>::cast(self).into() }
+            #[inline] fn cast(self) -> TimeDelta {
+                if self.is_none() { TimeDelta::nat() } else { Cast::<i64>::cast(self).into() }
+            }
         }
 
         #[cfg(feature="time")]
         impl Cast<Time> for $T {
-            #[inline] fn cast(self) -> Time { Cast::<i64>::cast(self).into() }
+            #[inline] fn cast(self) -> Time {
+                if self.is_none() { Time::nat() } else { Cast::<i64>::cast(self).into() }
+            }
         }
 
 
@@ -261,10 +268,17 @@ impl Cast<Time> for Option<bool> {
 
 #[cfg(feature = "time")]
 macro_rules! impl_time_cast {
-    ($($T: ty),*) => {
+    // NaT becomes NaN for float targets; integer targets have no null and keep the raw value
+    (@value float, $T: ty, $s: expr) => {
+        if $s.is_none() { <$T>::NAN } else { Cast::<i64>::cast($s).cast() }
+    };
+    (@value int, $T: ty, $s: expr) => {
+        Cast::<i64>::cast($s).cast()
+    };
+    ($kind: ident: $($T: ty),*) => {
         $(
             impl<U: TimeUnitTrait> Cast<$T> for DateTime<U> {
-                #[inline] fn cast(self) -> $T { Cast::<i64>::cast(self).cast() }
+                #[inline] fn cast(self) -> $T { impl_time_cast!(@value $kind, $T, self) }
             }
 
             impl<U: TimeUnitTrait> Cast<Option<$T>> for DateTime<U> {
@@ -279,7 +293,7 @@ macro_rules! impl_time_cast {
 
 
             impl Cast<$T> for TimeDelta {
-                #[inline] fn cast(self) -> $T { Cast::<i64>::cast(self).cast() }
+                #[inline] fn cast(self) -> $T { impl_time_cast!(@value $kind, $T, self) }
             }
 
             impl Cast<Option<$T>> for TimeDelta {
@@ -293,7 +307,7 @@ macro_rules! impl_time_cast {
             }
 
             impl Cast<$T> for Time {
-                #[inline] fn cast(self) -> $T { Cast::<i64>::cast(self).cast() }
+                #[inline] fn cast(self) -> $T { impl_time_cast!(@value $kind, $T, self) }
             }
 
             impl Cast<Option<$T>> for Time {
@@ -379,7 +393,9 @@ impl_numeric_cast!(isize => { u8, f32, f64, i32, i64, u64, usize });
 // impl_numeric_cast!(nocommon bool => {u8, i32, i64, u64, usize, isize});
 
 #[cfg(feature = "time")]
-impl_time_cast!(u8, u64, f32, f64, i32, usize, isize, bool);
+impl_time_cast!(int: u8, u64, i32, usize, isize, bool);
+#[cfg(feature = "time")]
+impl_time_cast!(float: f32, f64);
 
 macro_rules! impl_cast_from_string {
     ($($T: ty),*) => {
